@@ -32,7 +32,8 @@ InStall     == CanIn /\ ~HasDesc(xfer.v) /\ \E a \in BOOLEAN : In(a, ExpectedOut
 StatusDone  == stage = "complete" /\ Status
 StatusEarly == stage = "data" /\ Status
 
-MCNext == \/ DoSetup \/ InAcked \/ InLast \/ InNotAcked \/ InNak \/ InStall \/ StatusDone \/ StatusEarly
+DoReset     == stage \in {"data", "complete"} /\ Reset
+MCNext == \/ DoReset \/ DoSetup \/ InAcked \/ InLast \/ InNotAcked \/ InNak \/ InStall \/ StatusDone \/ StatusEarly
 MCSpec == MCInit /\ [][MCNext]_vars
 
 ASSUME \A i \in 1..Len(MCConfigs) :
